@@ -223,6 +223,13 @@ def a2_a5(chk, repo, rule_summary="C13-A2", summary_only=False):
             gname = parts[1] + ("_scan" + parts[-1][1:] if len(parts) > 5 and parts[-1][:1] in ("B", "F") else "")
             return G("/" + gname, None, DictS({"src": fname}))
         sc = I.module_scope(io)
+        mapper_args = []
+
+        def get_mapper(I_, a, kw):
+            mapper_args.append(a[0] if a else kw.get("url"))
+            root = a[0].v if a and isinstance(a[0], Const) and isinstance(a[0].v, str) else "?"
+            return Obj("Mapper", OrderedDict(root=Const(root.split("://", 1)[-1]), fs=Obj("InnerFS", OrderedDict())))
+        sc.vars["fsspec"] = Obj("fsspec", OrderedDict(get_mapper=Fn("py", impl=get_mapper, name="fsspec.get_mapper")))
         sc.vars["open_summary"] = rec("open_summary", lambda a, k: marks["summary"])
         sc.vars["open_volume_directory"] = rec("open_volume_directory", lambda a, k: marks["volume"])
         sc.vars["open_sar_leader"] = rec("open_sar_leader", lambda a, k: marks["leader"])
@@ -230,7 +237,9 @@ def a2_a5(chk, repo, rule_summary="C13-A2", summary_only=False):
         sc.vars["sar_image"] = __import__("vlib.shapes", fromlist=["ModuleRef"]).ModuleRef(mod=si)
         before = _plain(summary)
         try:
-            out = I.call(I.lookup("open", sc), [Const("s3://bucket/product")], {"records_per_chunk": Const(7), "create_cache": Const(True), "use_cache": Const(False)})
+            # product directories carry the scene and product id, which holds a dot ("1.5")
+            PRODUCT = "s3://bucket/archive/ALOS2012345678-160229-UBSR1.5RUD"
+            out = I.call(I.lookup("open", sc), [Const(PRODUCT)], {"records_per_chunk": Const(7), "create_cache": Const(True), "use_cache": Const(False)})
         except (ShapeError, _Raise, RecursionError) as e:
             if summary_only:
                 raise AnalysisError(f"{where}: model evaluation not possible ({str(e)[:80]})")
@@ -248,6 +257,10 @@ def a2_a5(chk, repo, rule_summary="C13-A2", summary_only=False):
         chk.require(listed == images, rule_summary, where, "the file list published under summary/product_information/data_files is left as the summary gives it",
                     f"after io.open the summary's own list of image files reads {listed}, the summary file lists {images}: opening re-orders / edits the published attribute in place",
                     key="open:summary-list-untouched")
+        if not summary_only:
+            got_paths = [x.v if isinstance(x, Const) else repr(x) for x in mapper_args]
+            chk.require(got_paths == [PRODUCT], "C13-A2", where, "the product is opened at the location the caller names",
+                        f"io.open({PRODUCT!r}) asks fsspec for {got_paths}: another directory than the one the caller named is opened", key="open:location")
         results.append((images, out, calls, marks))
     if summary_only:
         return
